@@ -130,7 +130,7 @@ fn field_type_tu(uses: &[String], salt: usize) -> String {
         (false, false) => ["u8", "Vec<String>", "m::T", "::U", "Map<T = u8>", "<T as Tr>::Out", "Option<<U as Tr>::Out>"][salt % 7].to_string(),
         (true, false) => ["T", "Vec<T>", "&'a [T]", "Option<Box<dyn Fn(T) -> u8>>", "a::B<T>::C", "T::Item", "(T, <U as Tr>::Out)"][salt % 7].to_string(),
         (false, true) => ["U", "(U, u8)", "fn(U)", "[U; N]", "(<T as Tr>::Out, U)"][salt % 5].to_string(),
-        (true, true) => ["(T, U)", "Result<T, U>", "fn(T) -> U", "HashMap<T, Vec<U>>"][salt % 4].to_string(),
+        (true, true) => ["(T, U)", "Result<T, U>", "fn(T) -> U", "HashMap<T, Vec<U>>", "T::Out<U>", "T::Assoc<Vec<U>>::Item"][salt % 6].to_string(),     // incl. arguments on a segment after the parameter
     }
 }
 
